@@ -235,42 +235,43 @@ def FS.powerDests (fs : FS) : List (Option Bytes) :=
 
 inductive Phase where
   | init      -- no part file created yet
-  | opened    -- part file created exclusively and open
-  | closed    -- part file closed, not yet published
+  | part      -- part file created exclusively; not yet published
   | linked    -- `link part dest` done, `unlink part` pending
   | done      -- published
   | aborted   -- part file removed without publication
 deriving DecidableEq, Repr
 
-/-- abstract state of the acceptance automaton: phase, "user buffer may be non-empty",
-    "kernel may hold unsynced bytes of the part file" -/
+/-- abstract state of the acceptance automaton: phase, "the part file object is open",
+    "its user buffer may be non-empty", "the kernel may hold unsynced bytes of the part file" -/
 structure St where
   phase : Phase
+  isOpen : Bool
   dirtyBuf : Bool
   unsynced : Bool
 deriving DecidableEq, Repr
 
-def St.init : St := ⟨.init, false, false⟩
+def St.init : St := ⟨.init, false, false, false⟩
 
 def St.step (s : St) : Ev → Option St
   | .noop => some s
   | .openPart excl sameDir _ =>
-    if s.phase = .init ∧ excl ∧ sameDir then some ⟨.opened, false, false⟩ else none
-  | .chmodPart _ => if s.phase = .opened ∨ s.phase = .closed then some s else none
-  | .write _ _ => if s.phase = .opened ∨ s.phase = .aborted then some { s with dirtyBuf := true, unsynced := true } else none
-  | .flush => if s.phase = .opened ∨ s.phase = .aborted then some { s with dirtyBuf := false, unsynced := s.unsynced || s.dirtyBuf } else none
-  | .fsync => if s.phase = .opened ∨ s.phase = .aborted then some { s with unsynced := false } else none
-  | .close => if s.phase = .opened then some ⟨.closed, false, s.unsynced || s.dirtyBuf⟩
-              else if s.phase = .aborted then some s else none
-  | .closeFd => if s.phase = .opened ∧ s.dirtyBuf = false then some { s with phase := .closed }
-                else if s.phase = .aborted then some s else none
-  | .renamePartDest => if s.phase = .closed ∧ s.unsynced = false then some { s with phase := .done } else none
-  | .linkPartDest => if s.phase = .closed ∧ s.unsynced = false then some { s with phase := .linked } else none
+    if s.phase = .init ∧ excl = true ∧ sameDir = true then some ⟨.part, true, false, false⟩ else none
+  | .chmodPart _ => if s.phase = .part then some s else none
+  | .write _ _ =>
+    if s.isOpen = true ∧ (s.phase = .part ∨ s.phase = .aborted) then some { s with dirtyBuf := true, unsynced := true } else none
+  | .flush => if s.isOpen = true then some { s with dirtyBuf := false, unsynced := s.unsynced || s.dirtyBuf } else none
+  | .fsync => if s.isOpen = true then some { s with unsynced := false } else none
+  | .close => if s.isOpen = true then some { s with isOpen := false, dirtyBuf := false, unsynced := s.unsynced || s.dirtyBuf } else none
+  | .closeFd =>
+    if s.isOpen = true ∧ (s.dirtyBuf = false ∨ s.phase = .aborted) then some { s with isOpen := false, dirtyBuf := false } else none
+  | .renamePartDest =>
+    if s.phase = .part ∧ s.dirtyBuf = false ∧ s.unsynced = false then some { s with phase := .done } else none
+  | .linkPartDest =>
+    if s.phase = .part ∧ s.dirtyBuf = false ∧ s.unsynced = false then some { s with phase := .linked } else none
   | .unlinkPart =>
     match s.phase with
     | .init => some s                       -- removal of a stale part file (overwrite_part)
-    | .opened => some { s with phase := .aborted }
-    | .closed => some { s with phase := .aborted }
+    | .part => some { s with phase := .aborted }
     | .linked => some { s with phase := .done }
     | _ => none
   | .truncDest => none
@@ -285,9 +286,10 @@ def St.run (s : St) : List Ev → Option St
     | none => none
 
 /-- every write goes to a part file created with `O_CREAT|O_EXCL` in the destination's directory;
-    the destination is touched by exactly one publishing event (`rename part dest`, or
+    the destination is touched by at most one publishing event (`rename part dest`, or
     `link part dest` followed by `unlink part`), which is preceded, in order, by all writes, a flush
-    of everything written, an fsync of everything flushed, and the close of the part file. -/
+    (or close) of everything written and an fsync of everything flushed; nothing is written after it.
+    (Publication with the file object still open is accepted when its buffer is empty and synced.) -/
 def SafeTrace (t : List Ev) : Bool := (St.init.run t).isSome
 
 /-- all bytes written by the trace, in order -/
